@@ -13,13 +13,16 @@ func init() { register("C42", checkC42) }
 // lockedHelpers computes the methods of a type that never take the mutex themselves and whose every
 // call site (inside the type's methods) holds it; their bodies are analysed as "held on entry".
 func locksetForType(r *repoCtx, pkgPrefix, typeName, mutex string, guarded map[string]bool) (acc []lockAccess, helpers map[string]bool, problems []string, methods int) {
-	var fis []*FuncInfo
+	var fis, others []*FuncInfo
 	for name, fi := range r.funcs {
 		if strings.HasPrefix(name, pkgPrefix+"."+typeName+".") {
 			fis = append(fis, fi)
+		} else if strings.HasPrefix(name, pkgPrefix+".") && fi.Decl.Body != nil {
+			others = append(others, fi)
 		}
 	}
 	sort.Slice(fis, func(i, j int) bool { return fis[i].Name() < fis[j].Name() })
+	sort.Slice(others, func(i, j int) bool { return others[i].Name() < others[j].Name() })
 	methods = len(fis)
 	helpers = map[string]bool{}
 	for iter := 0; iter < 4; iter++ {
@@ -45,6 +48,19 @@ func locksetForType(r *repoCtx, pkgPrefix, typeName, mutex string, guarded map[s
 			}
 			if strings.Contains(nodeText(fi), "."+mutex+".Lock()") || strings.Contains(nodeText(fi), "."+mutex+".RLock()") {
 				takesLock[short] = true
+			}
+		}
+		// functions outside the type that hold a variable of the type
+		for _, fi := range others {
+			for _, v := range varsOfType(fi, typeName) {
+				w := walkLocksetVar(fi, v, mutex, guarded)
+				acc = append(acc, w.accesses...)
+				for _, p := range w.problems {
+					problems = append(problems, fi.Name()+"("+v+"): "+p)
+				}
+				for _, c := range w.calls {
+					callsHeld[c.Method] = append(callsHeld[c.Method], c.Held)
+				}
 			}
 		}
 		changed := false
